@@ -47,7 +47,9 @@ RICH_DESTS = ['/a`b', '/a*b*', '/x\\y', '/a"b', "/a'b", '/&amp;', '/a(b(c))', '/
 AUTOLINKS = ['http://example.com/path', 'https://a.b/c?d=e&f=g', 'ftp://host/file.txt', 'mailto:someone@example.com']
 EMAILS = ['user@example.com', 'first.last@sub.example.org']
 ESCAPABLE = list('!"#$%&\'()*+,-./:;<=>?@[\\]^_`{}~')     # every ASCII punctuation character except '|' (table cells)
-ENTITIES = [('&amp;', '&'), ('&lt;', '<'), ('&gt;', '>'), ('&copy;', '©'), ('&#35;', '#'), ('&#x41;', 'A'), ('&quot;', '"'), ('&auml;', 'ä'), ('&#169;', '©')]
+ENTITIES = [('&amp;', '&'), ('&lt;', '<'), ('&gt;', '>'), ('&copy;', '©'), ('&#35;', '#'), ('&#x41;', 'A'), ('&quot;', '"'), ('&auml;', 'ä'), ('&#169;', '©'),
+            ('&nbsp;', '\xa0'), ('&emsp;', '\u2003'), ('&ngE;', '\u2267\u0338'), ('&#X1F600;', '\U0001F600')]
+REFERENCE_LOOKALIKES = ['&copy', '&amp', '&#35', '&notit;', '&copyfoo;', '&ampere;', '&nosuch;', '&#99999999;', '&#xFFFFFFF;', '&#;', '&#x;', '&Amp;', 'AT&T;']
 RAW_HTML = ['<span>', '</span>', '<br />', '<b class="x">', '</b>', '<!-- note -->', '<i data-x=\'1\'>', '<x-y z>']
 INFO = ['', '', 'python', 'sh', 'c++', 'js extra words', 'ruby startline=3']
 FENCE_LINES = ['code line', 'x = 1', '    indented', '# not a heading', '- not a list', '> not a quote', '*not emph*', '<div>', '', 'a  b', '[ref]: /nope',
@@ -154,6 +156,10 @@ def gen_atom(rng, opt, depth, allow_link=True, emph_char=None, in_strike=False, 
             c = 'code'        # known finding C03-strike-vs-code-tilde
         if breaks and not opt.canonical and rng.random() < 0.12:
             # 6.1: line endings inside a code span become spaces; the next line starts with a word (R1)
+            if not opt.prose and rng.random() < 0.4:
+                # the content stands on lines of its own, or has a space on one side and a line ending on the other: one
+                # "space" is stripped from each side
+                return ('code', rng.choice(('foo', 'make install', 'a  b')), rng.choice((1, 2)), rng.choice((('\n', '\n'), (' ', '\n'), ('\n', ' '))))
             c = rng.choice(('alpha\nbeta', 'x = 1\ny', '\nmake install', 'one\ntwo\nthree') if not opt.prose else ('alpha\nbeta', '\nmake install', 'one\ntwo\nthree'))
             return ('code', c, rng.choice((1, 2)), False)
         return ('code', c, rng.choice((1, 1, 2)), rng.random() < 0.25)
@@ -163,7 +169,8 @@ def gen_atom(rng, opt, depth, allow_link=True, emph_char=None, in_strike=False, 
     if r < 0.67:
         ch = rng.choice('*_') if emph_char is None else ('_' if emph_char == '*' else '*')
         kind = rng.choice(('em', 'strong'))
-        return (kind, ch, gen_span_content(rng, opt, depth + 1, allow_link, ch, in_strike, breaks), rng.choice(('', '', '', '.', ',', ';')))
+        return (kind, ch, gen_span_content(rng, opt, depth + 1, allow_link, ch, in_strike, breaks),
+                rng.choice(('', '', '', '.', ',', ';') + (('\U00011047', '\u2e3a', '\U00010100') if opt.exotic_words else ())))
     if r < 0.71 and not in_strike:
         return ('strike', gen_span_content(rng, opt, depth + 1, allow_link, emph_char, True, breaks))
     if r < 0.80 and allow_link:
@@ -175,6 +182,8 @@ def gen_atom(rng, opt, depth, allow_link=True, emph_char=None, in_strike=False, 
     if r < 0.91:
         return ('email', rng.choice(EMAILS))
     if r < 0.95 and opt.entities:
+        if rng.random() < 0.25:
+            return ('literal', rng.choice(REFERENCE_LOOKALIKES))      # 6.2: no reference without ';', an exact name, 1-7 / 1-6 digits
         return ('ent',) + rng.choice(ENTITIES)
     if r < 0.98 and opt.html and not opt.prose:
         if breaks and rng.random() < 0.2:
@@ -334,6 +343,8 @@ def atom_md(nd):
         return nd[1]
     if k == 'code':
         t = '`' * nd[2]
+        if isinstance(nd[3], tuple):
+            return t + nd[3][0] + nd[1] + nd[3][1] + t        # 6.1: a line ending pads like a space
         pad = ' ' if nd[3] else ''
         return t + pad + nd[1] + pad + t
     if k == 'esc':
